@@ -36,6 +36,29 @@ def reassemble(items, x):
     return K, M
 
 
+def own_mass(items, x):
+    """rho * int h_a h_b dV delta_ij from the regions' shape functions and differential volumes; None if an item is no plain
+    solid body on a Cartesian displacement field."""
+    import scipy.sparse as sp
+    n = int(np.sum(x.fieldsizes))
+    M = sp.csr_matrix((n, n))
+    for it in items:
+        f0 = it.field[0]
+        if type(f0).__name__ not in ("Field", "FieldPlaneStrain") or getattr(it, "density", None) is None:
+            return None
+        reg = f0.region
+        cells = reg.mesh.cells
+        nq, nc = reg.dV.shape
+        h = np.broadcast_to(reg.h, (reg.h.shape[0], nq, nc))
+        m = float(it.density) * np.einsum("aqc,bqc,qc->cab", h, h, reg.dV)
+        d = f0.dim
+        rows = np.repeat(cells[:, :, None], cells.shape[1], axis=2)
+        cols = np.repeat(cells[:, None, :], cells.shape[1], axis=1)
+        for i in range(d):
+            M = M + sp.csr_matrix((m.ravel(), (d * rows.ravel() + i, d * cols.ravel() + i)), shape=(n, n))
+    return M
+
+
 def attach_hooks(run):
     import felupe as fem
     FV = fem.FreeVibration
@@ -97,6 +120,34 @@ def attach_hooks(run):
             dup = np.abs(Gn) - np.eye(len(lam))
             if len(lam) > 1 and np.max(np.abs(dup) * (~sep)) > 1 - 1e-9 and np.any((np.abs(Gn) > 1 - 1e-9) & ~np.eye(len(lam), dtype=bool)):
                 run.fail("modal", "clause=distinct-modes", "the same eigenvector is returned more than once")
+        # completeness: with the default solver the pairs are those closest to zero; for small systems with a definite mass
+        # block compare with a dense generalized solve (a solver asked for another part of the spectrum would pass the residual)
+        if kwargs.get("solver") is None and len(dof1) <= 600 and len(lam) >= 1:
+            try:
+                import scipy.linalg as sla
+                Md = np.asarray(M11.todense())
+                wm = np.linalg.eigvalsh(Md)
+                # (under-integrated consistent mass matrices, e.g. tetra10 with its 4-point rule, are singular: no dense reference)
+                wd = sla.eigh(np.asarray(K11.todense()), Md, eigvals_only=True) if wm[0] > 1e-9 * wm[-1] else None
+            except Exception:
+                wd = None
+            if wd is None:
+                run.skip("modal", "dense reference solve not available (mass block not positive definite)")
+            else:
+                wall = maxabs(wd)
+                wd = wd[np.argsort(np.abs(wd))][: len(lam)]
+                # (zero-frequency modes come out as round-off of either sign: differences are measured against the spectrum's scale)
+                run.compare("modal", "clause=spectrum-closest-to-zero", maxabs(np.sort(wd) - np.sort(lam)) / max(maxabs(wd), 1e-9 * wall, 1e-300), 1e-6,
+                            "the returned eigenvalues are not the ones of smallest magnitude of the constrained pencil (dense reference)",
+                            unit="modal:spectrum")
+        # the reference mass matrix itself against its definition rho * int h_a h_b dV on plain displacement fields
+        try:
+            own = own_mass(self.items, x)
+        except Exception:
+            own = None
+        if own is not None:
+            run.compare("modal", "clause=mass-matrix-definition", maxabs((M - own).toarray() if hasattr(M - own, "toarray") else (M - own)) / max(abs(own).max(), 1e-300), 1e-12,
+                        "the assembled mass matrix is not rho * integral of h_a h_b over the body", unit="modal:mass-definition")
         self._vmon = {"K": K, "M": M, "dof0": dof0, "dof1": dof1}
 
     attach.wrap_method(FV, "evaluate", pre=pre_evaluate, post=post_evaluate)
@@ -137,7 +188,7 @@ UNIT_SYSTEMS = [lambda r: (float(10 ** r.uniform(3, 5.5)), float(10 ** r.uniform
 
 def build(rng, fam, density=None, units=False):
     import felupe as fem
-    mesh, L = problems.box_mesh(fam, rng, n=None, lengths=rng.uniform(0.8, 3.0, 3 if fam in ("hexahedron", "hexahedron20", "tetra", "tetra10") else 2))
+    mesh, L = problems.box_mesh(fam, rng, n=None, lengths=rng.uniform(0.8, 3.0, 3 if fam in ("hexahedron", "hexahedron20", "hexahedron27", "tetra", "tetra10") else 2))
     d = mesh.dim
     E, nu = float(rng.uniform(1, 100)), float(rng.uniform(0.1, 0.4))
     if units:
@@ -236,6 +287,38 @@ def case_items(fam, rep):
     return fn
 
 
+def case_submesh(rep):
+    """Two bodies on complementary sub-meshes of one point set, evaluated with the global field as x0 (the documented layout of
+    multi-body models): the spectrum is that of the one-body model of the whole mesh."""
+    def fn(run):
+        import felupe as fem
+        rng = rng_for(run.seed, "C18", "submesh", rep)
+        attach_hooks(run)
+        try:
+            fam = ["hexahedron", "quad", "tetra"][rep % 3]
+            solid, field, mesh, L, (E, nu, rho) = build(rng, fam)
+            um = solid.umat
+            mult = solid.assemble.multiplier
+            cx = mesh.points[mesh.cells].mean(1)[:, 0]
+            left = cx < np.median(cx)
+            parts = []
+            for sel in (left, ~left):
+                mm = fem.Mesh(mesh.points, mesh.cells[sel], mesh.cell_type)
+                fk = problems.field_for(fam, mm, "3d" if mesh.dim == 3 else "planestrain")
+                parts.append(fem.SolidBody(um, fk, density=rho, multiplier=mult))
+            b = {"left": fem.Boundary(field[0], fx=0.0)}
+            nfree = len(fem.dof.partition(field, b)[1])
+            k = max(1, min(int(rng.integers(2, 7)), nfree - 2))
+            one = fem.FreeVibration([solid], b).evaluate(k=k)
+            two = fem.FreeVibration(parts[::-1] if rep % 2 else parts, b).evaluate(k=k, x0=field)
+            run.compare("modal.submesh", "clause=sub-mesh-bodies-equal-one-body", maxabs(np.sort(two.eigenvalues) - np.sort(one.eigenvalues)) / maxabs(one.eigenvalues), 1e-8,
+                        "two bodies on complementary sub-meshes (evaluated with the global field) do not have the spectrum of the one-body model",
+                        unit="modal:sub-mesh-items", config=("submesh", fam))
+        finally:
+            attach.detach_all()
+    return fn
+
+
 def case_rigid(fam, rep):
     def fn(run):
         import felupe as fem
@@ -321,7 +404,7 @@ def case_mixed(rep):
 def cases(tier, seed):
     out = []
     reps = 3 if tier == "quick" else 12
-    for fam in ("hexahedron", "hexahedron20", "tetra", "tetra10", "quad", "triangle", "quad8", "triangle6"):
+    for fam in ("hexahedron", "hexahedron20", "tetra", "tetra10", "quad", "triangle", "quad8", "triangle6", "hexahedron27", "quad9"):
         for rep in range(reps):
             out.append(("constrained:%s:%d" % (fam, rep), case_constrained(fam, rep)))
     for fam in ("hexahedron", "tetra", "quad", "triangle", "quad8", "tetra10"):
@@ -332,6 +415,8 @@ def cases(tier, seed):
     for fam in ("hexahedron", "quad", "tetra10"):
         for rep in range(2 if tier == "quick" else 6):
             out.append(("items:%s:%d" % (fam, rep), case_items(fam, rep)))
+    for rep in range(3 if tier == "quick" else 9):
+        out.append(("submesh:%d" % rep, case_submesh(rep)))
     for fam in ("hexahedron", "quad", "tetra"):
         for rep in range(1 if tier == "quick" else 4):
             out.append(("prestretched:%s:%d" % (fam, rep), case_prestretched(fam, rep)))
@@ -341,11 +426,11 @@ def cases(tier, seed):
 SPEC = {
     "required_units": ["modal:residual", "modal:prescribed", "modal:scatter", "modal:frequency", "modal:rigid-modes:2d", "modal:rigid-modes:3d",
                        "modal:invariance", "modal:mixed-container", "modal:prestretched", "modal:orthogonal", "modal:items>=2", "modal:parallel",
-                       "modal:item:SolidBodyNearlyIncompressible", "modal:other-unit-system", "modal:unit-sweep"],
+                       "modal:item:SolidBodyNearlyIncompressible", "modal:other-unit-system", "modal:unit-sweep", "modal:spectrum", "modal:mass-definition", "modal:sub-mesh-items"],
     "rule": ("linear-elastic bodies on 8 element families (3D and plane strain) with random box dimensions, elastic constants, densities, three "
              "kinds of boundary dictionaries, 1..12 requested modes; unconstrained bodies through a solver= with a small negative shift; "
              "mixed u/p/J container; every evaluate()/extract() is judged by the post-hooks with K and M re-assembled from item copies; a "
              "configuration is distinct by (family, boundary kind, number of modes)"),
-    "assumptions": ["completeness of the spectrum is only checked through the rigid-mode count", "the shifted solver for singular K is API the class offers (solver=)"],
+    "assumptions": ["completeness of the spectrum: rigid-mode count, and a dense generalized solve for systems up to 600 free unknowns with the default solver", "the shifted solver for singular K is API the class offers (solver=)"],
     "jobs": {"quick": 8, "thorough": 16},
 }
